@@ -37,6 +37,12 @@ import Tie.Excerpt
 #print axioms Sourcer.C10_nested
 #print axioms Sourcer.C10_ordered_seq
 #print axioms Sourcer.C10_ordered_list
+#print axioms Sourcer.C14_eq_equivalence
+#print axioms Sourcer.C14_eq_iff_same_class_and_fields
+#print axioms Sourcer.C14_obj_ne_other
+#print axioms Sourcer.C14_eq_implies_hash_eq
+#print axioms Sourcer.C14_asdict_order
+#print axioms Sourcer.C14_replace
 #print axioms Tie.implFlags_sound -- module Tie.Flags
 #print axioms Tie.impl_refines -- module Tie.Flags
 #print axioms Tie.map_index_eq -- module Tie.Excerpt
